@@ -112,3 +112,41 @@ Inductive gpreset :=
 | GPTypeDefault (list_name : bytes) (names : list bytes) (dflt : bytes) (pos : bytes)
       (* if !(L.Contains(typ)) { typ = D }: a name outside the list L (its elements: names) is replaced by D *)
 | GPUnrecognised (src pos : bytes).
+
+(* ------------------------------------------------------------------ the wrappers around the codecs (builder b50)
+   The functions that stand between the property tables and the one-call codecs, statement by statement, in source
+   order (Gen/GobR.gobr_wrappers, Gen/GobW.gobw_wrappers; translator/gobwrap.go):
+     decoding_gob.go  tryDecodeItems, tryDecodeIRIs, tryDecodeIRI, gobDecodeItems, gobDecodeObjectAsMap
+     encoding_gob.go  gobEncodeItems, gobEncodeIRIs, gobEncodeItemOrLink
+   A statement of any other shape is an Unrecognised entry.  The interpreters are in Model/GobWrap.v. *)
+Inductive gwr :=
+| WrDeclare (how ty : bytes) (pos : bytes)
+      (* a local L of Go type T: L := make(T, 0) ("make0") | L := make(T) ("make") *)
+| WrDecoder (pos : bytes)                        (* g := gob.NewDecoder(bytes.NewReader(data)) *)
+| WrDecodeLocal (pos : bytes)
+      (* if err := g.Decode(&L); err != nil { return err }        (one result)
+         if err := g.Decode(&L); err != nil { return nil, err }   (two results) *)
+| WrEachDecode (callee how : bytes) (pos : bytes)
+      (* for _, it := range L { ob, err := <callee>(it); if err != nil { return err }; STORE }
+         STORE = *x = append( *x, ob)              how = "append"
+                 x.Append(ob) | _ = x.Append(ob)   how = "Append"   (the method, which skips a member already there) *)
+| WrRetNil (pos : bytes)                         (* return nil *)
+| WrRetRecvDecode (callee : bytes) (pos : bytes)
+      (* return x.GobDecode(data), x the pointer parameter; callee = "<type of the pointee>.GobDecode" (go/types) *)
+| WrCallInto (callee : bytes) (pos : bytes)      (* if err := <callee>(&L, data); err != nil { return nil, err } *)
+| WrRetLocal (pos : bytes)                       (* return L, nil *)
+| WrUnrecognised (src pos : bytes).
+
+Inductive gww :=
+| WwBuffer (pos : bytes)                         (* b := bytes.Buffer{} *)
+| WwDeclare (ty : bytes) (pos : bytes)           (* tt := make(T, 0) *)
+| WwEachEncode (over callee : bytes) (pos : bytes)
+      (* for _, it := range <col | col.Collection()> { single, err := <callee>(it); if err != nil { return nil, err };
+                                                        tt = append(tt, single) }        over = "" | "Collection" *)
+| WwEncode (src : bytes) (pos : bytes)
+      (* err := gob.NewEncoder(&b).Encode(S)     src = "local" (tt) | "param" (col) | the text of any other S *)
+| WwRetBufferErr (pos : bytes)                   (* return b.Bytes(), err *)
+| WwIfItemRet (callee : bytes) (pos : bytes)     (* if ob, ok := it.(Item); ok { return <callee>(ob) } *)
+| WwOn (on callee : bytes) (pos : bytes)
+      (* err := <on>(it, func(l *T) error { bytes, err := l.M(); b.Write(bytes); return err })     callee = "T.M" *)
+| WwUnrecognised (src pos : bytes).
